@@ -26,8 +26,7 @@ contract(F, 'NodeIDAllocator.__init__', props=('C16',),
          requires=lambda c: z3.And(c.user >= 0, c.init_temp >= 0, c.init_temp < MAXID),
          raises={'Exception': lambda c: c.user > 31},
          ensures=[('establishes-invariant', lambda c: nid_inv(c.post.self)),
-                  ('starts-at-init', lambda c: c.post.self._temp == c.init_temp),
-                  ('per-client-id-range-is-1/64-of-the-positive-int32-range', lambda c: c.post.self.num_ids == (2 ** 31 - 1) // 64)],
+                  ('starts-at-init', lambda c: c.post.self._temp == c.init_temp)],
          fields=FIELDS, inline=('NodeIDAllocator.reset',),
          opts={'opaque_construct': ('set',)},
          hooks={})
